@@ -565,6 +565,50 @@ void op_PLIST_ADD(World& w, const Op& op)
    w.note("parameter");
 }
 
+// Several hundred members in one go: a parameter list (or an enumeration) longer than any small integer type can count,
+// so positions, levels and home regions are checked far beyond the first few dozen members.
+void op_MEMBER_FLOOD(World& w, const Op& op)
+{
+   const unsigned count = 260 + op.c % 60;
+   char8_t buf[16];
+   auto name_for = [&](unsigned i) -> const Identifier& {
+      int n = std::snprintf(reinterpret_cast<char*>(buf), sizeof buf, "fm%u_%u", unsigned(op.d), i);
+      return w.L().get_identifier(util::word_view(buf, std::size_t(n)));
+   };
+   if (op.a % 2 == 0) {
+      if (w.plists.empty() || w.counters["parameter_floods"] >= 1) return;
+      auto pl = World::pick(w.plists, op.b);
+      ++w.counters["parameter_floods"];
+      auto& t = *World::pick(w.types, op.e);
+      for (unsigned i = 0; i < count; ++i) {
+         const Identifier& id = name_for(i);
+         bool used = false;
+         auto& seq = pl->elements();
+         for (std::size_t k = 0; k < seq.size() && k < 64 && !used; ++k) used = physically_same(seq.position(k)->name(), id);   // earlier members come from the name pool
+         if (!used) pl->add_member(id, t);
+      }
+      if (auto lr = w.rec_for(static_cast<const Node*>(pl))) {
+         std::vector<Val> xs;
+         for (std::size_t i = 0; i < pl->elements().size(); ++i) xs.push_back(N(*pl->elements().position(i)));
+         lr->exp("elements", Val::list(xs)).exp("size", U(xs.size()));
+      }
+   }
+   else {
+      if (w.enums.empty() || w.counters["enumerator_floods"] >= 1) return;
+      auto e = World::pick(w.enums, op.b);
+      ++w.counters["enumerator_floods"];
+      for (unsigned i = 0; i < count; ++i) e->add_member(name_for(i));
+      if (auto er = w.rec_for(static_cast<const Node*>(e))) {
+         std::vector<Val> xs;
+         for (std::size_t i = 0; i < e->members().size(); ++i) xs.push_back(N(*e->members().position(i)));
+         er->exp("members", Val::list(xs));
+      }
+   }
+   w.findings.count("member_additions");
+   w.findings.count("member_floods");
+   w.note("member flood");
+}
+
 void op_LAMBDA(World& w, const Op& op)
 {
    auto r = World::pick(w.regions, op.a);
@@ -1200,7 +1244,7 @@ void register_expr_ops(std::vector<OpInfo>& t)
    R(WHERE_FILL, G_FILL); R(INSTANTIATION, G_EXPR); R(INST_FILL, G_FILL); R(ID_EXPR_N, G_EXPR); R(ID_EXPR_D, G_EXPR); R(LABEL_X, G_EXPR);
    R(XLIST, G_EXPR); R(XLIST_PUSH, G_MEMBER); R(MAPPING, G_EXPR); R(MAP_FILL, G_FILL); R(PLIST_ADD, G_MEMBER); R(LAMBDA, G_EXPR); R(LAMBDA_FILL, G_FILL);
    R(REQUIRES, G_EXPR); R(REQ_PUSH, G_MEMBER); R(ASM, G_EXPR); R(STATIC_ASSERT, G_EXPR);
-   R(SUBST_E, G_SUBST); R(SUBST_G, G_SUBST); R(SUBST_BIND, G_SUBST); R(DEEP_BLOCK, G_HARNESS);
+   R(SUBST_E, G_SUBST); R(SUBST_G, G_SUBST); R(SUBST_BIND, G_SUBST); R(DEEP_BLOCK, G_HARNESS); R(MEMBER_FLOOD, G_HARNESS);
    R(BLOCK, G_STMT); R(ADD_STMT, G_MEMBER); R(NEW_HANDLER, G_MEMBER); R(EXPR_STMT, G_STMT); R(RETURN, G_STMT); R(GOTO, G_STMT); R(LABELED, G_STMT);
    R(IF, G_STMT); R(SWITCH, G_STMT); R(WHILE, G_STMT); R(DO, G_STMT); R(CTRL_FILL, G_FILL); R(FOR, G_STMT); R(FOR_FILL, G_FILL); R(FOR_IN, G_STMT);
    R(FOR_IN_FILL, G_FILL); R(BREAK, G_STMT); R(CONTINUE, G_STMT); R(JUMP_FILL, G_FILL); R(CTOR_BODY, G_STMT); R(ID_EXPR_FILL, G_FILL); R(CLASSIC_IMPL, G_FILL);
